@@ -467,3 +467,15 @@ def ghost_alias(g, dims, periodic_axes):
             tgt[ax] = 1 if cc[ax] == 0 else n
         out[int(G[cc])] = int(G[tuple(tgt)])
     return out
+
+
+def stencil_keys(dims):
+    """(row, col) pairs of the 3-point-per-axis stencil of every interior row (mode-independent key set)"""
+    G = cell_index(dims)
+    keys = set()
+    for cc in interior_cells(dims):
+        for ax in range(len(dims)):
+            for dlt in (-1, 0, 1):
+                c2 = list(cc); c2[ax] += dlt
+                keys.add((int(G[cc]), int(G[tuple(c2)])))
+    return sorted(keys)
